@@ -292,7 +292,7 @@ def edge_replay(rep, g, c, traces, maxedges=None, rng=None):
 # ------------------------------------------------------------------------------------------------ code -> spec
 def random_history(rng, c, steps):
     run = DimWiseRun(c['D'], c['lmin'], c['lmax'], version=c['version'], rebalancing=c['rebalancing'], boundary=c['boundary'],
-                     safety=c['sfn'] / c['sfd'], margin=c.get('margin'), a=c.get('a'), b=c.get('b'), max_hats=c.get('max_hats'), hat_seed=rng.randint(0, 10 ** 6))
+                     safety=c['sfn'] / c['sfd'], margin=c.get('margin'), a=c.get('a'), b=c.get('b'), max_hats=c.get('max_hats'), hat_seed=rng.randint(0, 10 ** 6), int_domain=c.get('int_domain', False))
     run.evaluate()
     evs = [observe(run)]
     script = []
@@ -318,7 +318,7 @@ def chain_history(c, pattern, hat_seed=0):
     [('L', (0, 1)), ('L', (0,))] = last interval of dimensions 0 and 1, then last interval of dimension 0.  The same object is
     observed (scheme, point sets, interpolation) after every step."""
     run = DimWiseRun(c['D'], c['lmin'], c['lmax'], version=c['version'], rebalancing=c['rebalancing'], boundary=c['boundary'],
-                     safety=c['sfn'] / c['sfd'], margin=c.get('margin'), a=c.get('a'), b=c.get('b'), max_hats=c.get('max_hats'), hat_seed=hat_seed)
+                     safety=c['sfn'] / c['sfd'], margin=c.get('margin'), a=c.get('a'), b=c.get('b'), max_hats=c.get('max_hats'), hat_seed=hat_seed, int_domain=c.get('int_domain', False))
     run.evaluate()
     evs = [observe(run)]
     script = []
